@@ -1032,8 +1032,15 @@ func (f *frame) loopFormFallback(at *ssa.BasicBlock, name string) (Val, bool) {
 			}
 		}
 	}
-	if !declared {
-		// the index variable is gone altogether (`for _, x := range s`): the name can only have meant the loop counter
+	wasIntLocal := false
+	for _, dv := range f.u.eng.baseLocals[f.key] {
+		if dv.Name == name && dv.Type == "int" {
+			wasIntLocal = true
+		}
+	}
+	if !declared && wasIntLocal {
+		// an integer variable of the baseline (props/locals.json) that is gone altogether (`for _, x := range s`):
+		// in an invariant of this loop the name can only have meant the loop counter
 		if v, ok := f.vals[ri].(Term); ok && v.T.K == KInt {
 			f.u.note("invariant of " + f.key + ": " + name + " (no longer declared) re-attached to rangeindex + 1 (loop form changed)")
 			return add(v, Term{"1", sInt}), true
